@@ -307,7 +307,7 @@ func sameSet(a, b []string) bool {
 	slices.Sort(x)
 	slices.Sort(y)
 
-	return slices.Equal(x, y)
+	return slices.Equal(slices.Compact(x), slices.Compact(y))
 }
 
 func phaseOK(opt string, s *gp.Snap) bool {
@@ -331,9 +331,9 @@ func stepOK(c *Call, from, post *gp.Snap) bool {
 	case "uwc", "modify", "rawupdate":
 		return slices.Equal(post.S, append(slices.Clone(from.S), c.Token)) && sameSet(from.Fins, post.Fins) && from.Phase == post.Phase
 	case "addfin":
-		return sameSet(append(slices.Clone(from.Fins), c.Fin), post.Fins) && slices.Equal(from.S, post.S) && from.Phase == post.Phase
+		return sameSet(append(slices.Clone(from.Fins), c.Fins...), post.Fins) && slices.Equal(from.S, post.S) && from.Phase == post.Phase
 	case "rmfin":
-		return sameSet(slices.DeleteFunc(slices.Clone(from.Fins), func(f string) bool { return f == c.Fin }), post.Fins) && slices.Equal(from.S, post.S) && from.Phase == post.Phase
+		return sameSet(slices.DeleteFunc(slices.Clone(from.Fins), func(f string) bool { return slices.Contains(c.Fins, f) }), post.Fins) && slices.Equal(from.S, post.S) && from.Phase == post.Phase
 	case "teardown":
 		return !from.TearingDown() && post.TearingDown() && sameSet(from.Fins, post.Fins) && slices.Equal(from.S, post.S)
 	case "forcedestroy", "rmallfins":
@@ -588,21 +588,30 @@ func CheckC04(o *Outcome) ([]Problem, Cover) {
 				continue
 			}
 
-			has := func(s *gp.Snap) bool { return s != nil && slices.Contains(s.Fins, c.Fin) }
+			// nothing to do: every named finalizer is there already (add) / none of them is there (remove)
+			done := func(s *gp.Snap) bool {
+				for _, f := range c.Fins {
+					if slices.Contains(s.Fins, f) != add {
+						return false
+					}
+				}
+
+				return true
+			}
 
 			switch len(mine) {
 			case 0:
-				if !inInterval(func(s *gp.Snap) bool { return s != nil && has(s) == add }) {
-					bad(c, "finalizer-change-lost", "%s(%s) reported success without writing although %s never %s during the call", c.Op, c.Fin, c.ID, map[bool]string{true: "had it", false: "lacked it"}[add])
+				if !inInterval(func(s *gp.Snap) bool { return s != nil && done(s) }) {
+					bad(c, "finalizer-change-lost", "%s(%v) reported success without writing although %s never %s during the call", c.Op, c.Fins, c.ID, map[bool]string{true: "had all of them", false: "lacked all of them"}[add])
 				}
 			case 1:
 				m := mine[0]
 				want := slices.Clone(m.Pre.Fins)
 
 				if add {
-					want = append(want, c.Fin)
+					want = append(want, c.Fins...)
 				} else {
-					want = slices.DeleteFunc(want, func(f string) bool { return f == c.Fin })
+					want = slices.DeleteFunc(want, func(f string) bool { return slices.Contains(c.Fins, f) })
 				}
 
 				if !sameSet(want, m.Post.Fins) || !slices.Equal(m.Pre.S, m.Post.S) || m.Pre.Phase != m.Post.Phase {
